@@ -5,6 +5,7 @@ import (
 	"compress/gzip"
 	"os"
 	"regexp"
+	"sort"
 	"strconv"
 	"strings"
 
@@ -70,9 +71,17 @@ given in the comand line.
 			}
 		}
 
+		// Names are visited in sorted order, so that the same arguments
+		// always give the same error message
+		subsetnames := make([]string, 0, len(subset))
+		for name := range subset {
+			subsetnames = append(subsetnames, name)
+		}
+		sort.Strings(subsetnames)
+
 		if indices {
 			var i int
-			for indexstr := range subset {
+			for _, indexstr := range subsetnames {
 				if i, err = strconv.Atoi(indexstr); err != nil {
 					io.LogError(err)
 					return
@@ -89,7 +98,7 @@ given in the comand line.
 
 		//regexps := make([]*regexp.Regexp, 0, 10)
 		if regexmatch {
-			for k := range subset {
+			for _, k := range subsetnames {
 				if r, err = regexp.Compile(k); err == nil {
 					regexps = append(regexps, r)
 				} else {
